@@ -286,6 +286,11 @@ impl CallHelper {
         args.prepare_registers(&mut regs);
         regs.update(Register::Rax, fn_addr);
         regs.update(Register::Rip, rip);
+        // the stopped code may keep live data in the 128-byte red zone below its stack pointer
+        // (leaf functions), the call must not push over it; keep the ABI alignment of a call site
+        const RED_ZONE: u64 = 128;
+        let rsp = ccx.regs.value(Register::Rsp);
+        regs.update(Register::Rsp, rsp.wrapping_sub(RED_ZONE) & !0xF);
         regs.persist(ccx.pid)?;
 
         debug!(target: "debugger", "call a function, wait until breakpoint are hit");
